@@ -9,6 +9,8 @@ from __future__ import annotations
 
 import itertools
 
+import warnings
+
 import numpy as np
 
 LEVEL = "model_checking"
@@ -338,6 +340,13 @@ def dtypes(ctx):
         "bool": (base % 3 == 0),
         "float32": (base * 1.5).astype("float32"),
     }
+    # narrow float cubes WITH missing cells: the reducers skip NaN whatever the float width
+    for fdt in ("float32", "float16", "float64"):
+        a = (base % 97 * 0.5).astype(fdt)
+        a[1, 0, 1] = np.nan
+        a[4, 1, 0] = np.nan
+        a[2, 1, 1] = np.nan
+        cubes[fdt + " with NaN"] = a
     for dt, arr in cubes.items():
         da = xr.DataArray(arr, dims=("time", "y", "x"), coords={"time": time})
         exact = arr.astype(np.float64)
@@ -358,9 +367,11 @@ def dtypes(ctx):
                         if ok:
                             for (s0, e0), item in zip(wins, got):
                                 blk = exact[s0:e0 + 1]
-                                exp = blk.sum(axis=0) if func == "sum" else blk.mean(axis=0)
+                                with np.errstate(all="ignore"), warnings.catch_warnings():
+                                    warnings.simplefilter("ignore")
+                                    exp = np.nansum(blk, axis=0) if func == "sum" else np.nanmean(blk, axis=0)
                                 v = np.asarray(item.values, dtype=np.float64)[0]
-                                if not np.allclose(v, exp, rtol=1e-6, atol=0):
+                                if not np.allclose(v, exp, rtol=2e-3 if "float16" in dt else 1e-6, atol=0, equal_nan=True):
                                     ok = False
                                     msg = f"window {s0}..{e0}: {func} {v.ravel().tolist()} instead of {exp.ravel().tolist()}"
                                     break
